@@ -18,7 +18,7 @@ def _fresh(doc, style, plain):
     return copy.deepcopy(_CACHE[key])
 
 
-def run_merge(ldoc, rdoc, cfgname, style="block", plain=False, mergeat=None, rules=None, keys=None, anchors=None):
+def run_merge(ldoc, rdoc, cfgname, style="block", plain=False, mergeat=None, rules=None, keys=None, anchors=None, rplain=None):
     """Returns (outcome, table_or_message, merger): outcome in ok | mergeerr | yperr | crash."""
     from yamlpath.merger import Merger, MergerConfig
     from yamlpath.merger.exceptions import MergeException
@@ -37,7 +37,7 @@ def run_merge(ldoc, rdoc, cfgname, style="block", plain=False, mergeat=None, rul
     if keys:
         over["keys"] = keys
     ldata = _fresh(ldoc, style, plain)
-    rdata = _fresh(rdoc, style, plain)
+    rdata = _fresh(rdoc, style, plain if rplain is None else rplain)
     cfg = MergerConfig(absdoc.LOG, args, **over)
     mg = Merger(absdoc.LOG, ldata, cfg)
     try:
